@@ -28,10 +28,10 @@ func init() {
 				Blocks:     16,
 				Procs:      16,
 				Exhaustive: true,
-				Rule: "exhaustive part (seed-independent): a 6-entry unit-size cache over 7 keys is filled, then EVERY sequence of 4 (5 thorough) operations from {Get, Remove, Put} x 7 keys is applied, then six fresh keys evict everything and the eviction order is compared; random part: case = (limit 1..40, unit sizes or a size function with sizes 0..limit+2, 2..40 keys, history of 80-600 Put/Get/Has/Remove/Clear with Remove-then-Get/Remove/Put bursts; one history in five runs on a cache configured WITHOUT the optional eviction callback, where evictions are observed through the results only). After EVERY call: the result, Len, Size (== sum of sizes, <= limit), Has for every key, the exact eviction-callback multiset of that call with evictions in exact LRU order (order of Clear's callbacks and the position of the replaced entry's callback unconstrained), and the accounting/LRU-index hook. " +
+				Rule: "exhaustive part (seed-independent): a 6-entry unit-size cache over 7 keys is filled, then EVERY sequence of 4 (5 thorough) operations from {Get, Remove, Put} x 7 keys is applied, then six fresh keys evict everything and the eviction order is compared; random part: case = (limit 1..40, unit sizes or a size function with sizes 0..limit+2, 2..40 keys, history of 80-600 Put/Get/Has/Remove/Clear with Remove-then-Get/Remove/Put bursts; a third of the size-function histories with every size and the limit multiplied by 2^26..2^56 (totals beyond 2^31, 2^32, 2^53); one history in five runs on a cache configured WITHOUT the optional eviction callback, where evictions are observed through the results only). Long-lived caches: one instance carries 150 000 (600 000 thorough) calls under sparse observation (per-call clocks and counters get the chance to drift or wrap). After EVERY call: the result, Len, Size (== sum of sizes, <= limit), Has for every key, the exact eviction-callback multiset of that call with evictions in exact LRU order (order of Clear's callbacks and the position of the replaced entry's callback unconstrained), and the accounting/LRU-index hook. " +
 					"Every history is executed as is and with the F1 counterfactual switch; a real-run violation is attributed to F1 iff it vanishes in the counterfactual run, every parent index seen was i/2 or (i-1)/2, and the cache had held >= 5 entries; a violation in a counterfactual run is a VIOLATION. " +
 					"distinct = hash(config, ops); non-trivial = the history evicted at least once and performed an access or removal after a Remove",
-				Required:     []string{"exhaustive_small_histories", "histories", "histories_ge6_entries", "evictions", "remove_then_access", "zero_size_puts", "too_large_puts", "replacing_puts", "clears", "hook_checks", "sparse_observation_runs", "runs_without_evict_callback"},
+				Required:     []string{"exhaustive_small_histories", "histories", "histories_ge6_entries", "evictions", "remove_then_access", "zero_size_puts", "too_large_puts", "replacing_puts", "clears", "hook_checks", "sparse_observation_runs", "runs_without_evict_callback", "long_lived_cache_runs", "runs_with_sizes_beyond_2_to_the_31"},
 				Assumptions:  []string{"reference model: recency list; Put and successful Get count as uses, Has does not", "known finding F1 is excused only through the counterfactual switch in heapq/verif_on.go and only when >= 5 entries were held"},
 				CoverPkgs:    []string{"github.com/creachadair/mds/cache", "github.com/creachadair/mds/heapq"},
 				CoverAnchors: []string{"cache/cache.go", "cache/lru.go", "heapq/heapq.go:pop", "heapq/heapq.go:Remove", "heapq/heapq.go:Pop", "heapq/heapq.go:Add", "heapq/heapq.go:pushUp", "heapq/heapq.go:pushDown", "heapq/heapq.go:swap"},
@@ -78,6 +78,9 @@ type c08cfg struct {
 	// NoCallback: the cache is configured without OnEvict (an optional
 	// feature left out); evictions are then observed through Has/Len/Size only.
 	NoCallback bool `json:"no_evict_callback,omitempty"`
+	// Shift: with a size function, every size and the limit are multiplied by
+	// 2^Shift (sizes counted in bytes of large objects: totals beyond 2^31, 2^32, 2^53)
+	Shift uint `json:"sizes_times_2_to_the,omitempty"`
 }
 
 type c08stats struct {
@@ -112,9 +115,13 @@ func c08run(c *fw.Ctx, cfg c08cfg, ops []cop, fixParent bool) (div *heapDiv, st 
 		c.Add("runs_without_evict_callback", 1)
 	}
 	if !cfg.Unit {
-		conf = conf.WithSize(func(v CVal) int64 { return v.Sz })
+		conf = conf.WithSize(func(v CVal) int64 { return v.Sz << cfg.Shift })
 	}
-	ch := cache.New(cfg.Limit, conf)
+	shift := cfg.Shift
+	if cfg.Unit {
+		shift = 0
+	}
+	ch := cache.New(cfg.Limit<<shift, conf)
 	ref := &lruModel{Limit: cfg.Limit}
 	step := 0
 	fail := func(format string, args ...any) *heapDiv {
@@ -225,15 +232,15 @@ func c08run(c *fw.Ctx, cfg c08cfg, ops []cop, fixParent bool) (div *heapDiv, st 
 		if got, want := ch.Len(), len(ref.Es); got != want {
 			return fail("after %v: Len=%d want %d", o, got, want), st
 		}
-		if got, want := ch.Size(), ref.size(); got != want || got > cfg.Limit {
-			return fail("after %v: Size=%d want %d (limit %d)", o, got, want, cfg.Limit), st
+		if got, want := ch.Size(), ref.size()<<shift; got != want || got > cfg.Limit<<shift {
+			return fail("after %v: Size=%d want %d (limit %d)", o, got, want, cfg.Limit<<shift), st
 		}
 		for k := -1; k <= cfg.Keys; k++ {
 			if got, want := ch.Has(k), ref.has(k); got != want {
 				return fail("after %v: Has(%d)=%v want %v", o, k, got, want), st
 			}
 		}
-		if size, count, _, err := ch.VerifCheck(nil); err != nil || size != ref.size() || count != len(ref.Es) {
+		if size, count, _, err := ch.VerifCheck(nil); err != nil || size != ref.size()<<shift || count != len(ref.Es) {
 			return fail("after %v: accounting hook: size=%d count=%d err=%v (reference size=%d count=%d)", o, size, count, err, ref.size(), len(ref.Es)), st
 		}
 		st.hookChecks++
@@ -356,6 +363,9 @@ func c08both(c *fw.Ctx, cfg c08cfg, ops []cop) (st c08stats, realViolated bool) 
 		upto := len(ops)
 		if d.Step >= 0 && d.Step < len(ops) {
 			upto = d.Step + 1
+		}
+		if upto > 400 {
+			return map[string]any{"config": cfg, "ops_before_omitted": upto - 300, "last_ops": copStrings(ops[upto-300 : upto]), "note": "the case is regenerated from (seed, block, index) on replay"}
 		}
 		return map[string]any{"config": cfg, "ops": copStrings(ops[:upto])}
 	}
@@ -516,6 +526,23 @@ func runC08(c *fw.Ctx) {
 		}
 	}
 	c08exhaustive(c, 1<<20)
+	// long-lived caches: one instance carries 150 000 (thorough 600 000) calls,
+	// observed sparsely, so that whatever accumulates per call (clocks,
+	// counters, amortised bookkeeping) has the chance to drift or wrap
+	for k := 0; k < c.Pick(1, 3); k++ {
+		if !c.Begin(1<<19 + k) {
+			continue
+		}
+		r := c.Rng()
+		cfg := c08cfg{Limit: int64(3 + r.IntN(30)), Unit: r.IntN(2) == 0, Keys: 4 + r.IntN(40), NoCallback: r.IntN(3) == 0}
+		if (k+c.Block)%4 == 0 {
+			cfg.Limit, cfg.Unit = int64(2+r.IntN(3)), true // at most 4 entries: no allowance for F1
+		}
+		ops := c08gen(r, cfg, c.Pick(150000, 600000))
+		c08both(c, cfg, ops)
+		c.Add("long_lived_cache_runs", 1)
+		c.Add("long_lived_cache_calls", int64(len(ops)))
+	}
 	n := c.Pick(2500, 40000)
 	for k := 0; k < n; k++ {
 		if !c.Begin(k) {
@@ -524,6 +551,10 @@ func runC08(c *fw.Ctx) {
 		r := c.Rng()
 		cfg := c08cfg{Limit: int64(1 + r.IntN(40)), Unit: r.IntN(2) == 0, Keys: 2 + r.IntN(39)}
 		cfg.NoCallback = k%5 == 3
+		if !cfg.Unit && k%3 == 1 {
+			cfg.Shift = []uint{26, 27, 28, 29, 31, 32, 33, 48, 56}[r.IntN(9)]
+			c.Add("runs_with_sizes_beyond_2_to_the_31", 1)
+		}
 		if k%7 == 0 { // small caches: no allowance for F1 whatever
 			cfg.Limit = int64(1 + r.IntN(4))
 			cfg.Unit = true
